@@ -65,7 +65,7 @@ End Run.
 
 (* ["serde", text] with the float oracle as a table *)
 Definition run_parse (f32tab : list (text * Z)) (t : text) : text :=
-  match parse_json (table_total f32tab) t with
+  match parse_json (table_lookup f32tab) t with
   | Some j => show_json j
   | None => T "err"
   end.
